@@ -221,9 +221,13 @@ pub fn run(ctx: &mut Ctx) {
                 if n.kind == Kind::Elided {
                     continue;
                 }
-                if o.kind.is_obscured() && n.kind.is_obscured() {
-                    continue; // was already a placeholder
+                if n.kind.is_obscured() {
+                    // a compressed / encrypted placeholder carries content; off the paths and at the
+                    // targets a proof holds nothing but elided digests
+                    bad = Some(format!("{}: {:?} placeholder left in the proof instead of an elided digest", path_str(&path), n.kind));
+                    break;
                 }
+                let _ = o;
                 if targets.contains(&n.digest) {
                     bad = Some(format!("{}: a target is present un-elided ({:?})", path_str(&path), n.kind));
                     break;
@@ -315,7 +319,7 @@ fn same_modulo_placeholders(exp: &T, got: &T) -> bool {
         return false;
     }
     if exp.kind.is_obscured() || got.kind.is_obscured() {
-        return exp.kind.is_obscured() && got.kind.is_obscured();
+        return exp.kind == Kind::Elided && got.kind == Kind::Elided;
     }
     exp.kind == got.kind && exp.children.len() == got.children.len() && exp.children.iter().zip(got.children.iter()).all(|(a, b)| same_modulo_placeholders(a, b))
 }
